@@ -152,6 +152,15 @@ CHECKS["C05"] = dict(
    note="Trusted: Lean kernel, Model/Dkg.lean (tied by dkgstep), harness. Assumed: the broadcast layer's agreement / at-most-once (C02, C03), SHA-256 commitments. Defects repaired earlier and relied on: F11 (wait loops return the context error instead of revealing), F10/F12 (arity checks).",
    technique="Lean 4 proof (inductive invariants over adversarial session interleavings) + lockstep differential correspondence on the real backends")
 
+CHECKS["C20"] = dict(
+   text="Lean 4 theorem, generic: on a machine of threads taking and releasing mutexes and read-write mutexes in any order, two accesses to one location by different threads, one of them a write, are never both made holding the location's guard in a sufficient mode "
+        "(discipline_implies_race_free, every number of threads, every schedule). Regenerated on every run: every field access of the shared types of threshold, mpc/bls, mpc/ps, msg, disc, rbc with the locks held at that point; a kernel-decided theorem asserts they are exactly "
+        "the rows of the committed protection table, each guarded by its mutex or in a class that needs none, with its justification (tree_respects_discipline, classes_known). Partial by nature: the runtime is outside a theorem; the race detector runs the real stack under "
+        "concurrent dispatch with early, duplicated and out-of-phase traffic on every run, as search and cross-check.",
+   design="4/C20",
+   note="Trusted: Lean kernel, the lock-set extractor, the protection map's justifications, the Go memory model. One defect repaired (F30: combineShares without the lock, reproduced by the race detector). Level: partial - a discipline proof plus detector runs, not a proof about the Go runtime.",
+   technique="Lean 4 proof (lock-discipline invariant over all schedules) + regenerated access table pinned by a kernel-decided theorem + race-detector runs of the real stack")
+
 CHECKS["C12"] = dict(
    text="Lean 4 theorems over the handler tables as a transition system with one action per lock acquisition: for every interleaving of a session's caller and callback threads (late callbacks included) the tables hold nothing under its keys afterwards (sign_no_residue, dkg_no_residue), "
         "re-admission, refusal of a duplicate session without any change, inertness of late traffic, and non-interference: any global interleaving of any number of sessions on disjoint keys projects onto each signing session's own run (noninterference, by a simulation argument). "
